@@ -258,6 +258,44 @@ func oracleC11(c *SCase) *ev.Failure {
 			return nil
 		})
 	}
+	// ... and of a message one of whose CHILD messages was modified in place after the parent had been sized and
+	// marshaled (Google runtimes keep a size per message object): Marshal first, without a Size call in between
+	if mt := typeByKey[c.Type]; mt != nil && flavour == "plain" && (mt.Info.Runtime == "gv2" || mt.Info.Runtime == "gv1gen") {
+		step("MarshalAfterChildChange", func() *ev.Failure {
+			live, _, _ := c.newOf(c.Value)
+			pm, ok := live.(proto.Message)
+			if !ok {
+				return nil
+			}
+			if _, err := csproto.Marshal(live); err != nil {
+				return nil
+			}
+			_ = csproto.Size(live)
+			if !growSomeChild(pm.ProtoReflect(), 0) {
+				return nil
+			}
+			if curRec != nil {
+				curRec.Class("child-modified-in-place-after-marshal")
+			}
+			twin := proto.Clone(pm)
+			want, err := proto.Marshal(twin)
+			if err != nil {
+				return nil
+			}
+			got, err := csproto.Marshal(live)
+			if err != nil || len(got) != len(want) {
+				return ev.Failf(shimSig("marshal-stale-after-child-modification", c), "csproto.Marshal after a child message was modified in place: %v, %d bytes; %s marshals a clone of the same contents to %d bytes", err, len(got), rt.name, len(want))
+			}
+			back := pm.ProtoReflect().New().Interface()
+			if err := proto.Unmarshal(got, back); err != nil || !proto.Equal(back, twin) {
+				return ev.Failf(shimSig("marshal-stale-after-child-modification", c), "csproto.Marshal after a child message was modified in place returns %.60x which decodes to %v (%v), contents %v", got, back, err, twin)
+			}
+			if n := csproto.Size(live); n != len(want) {
+				return ev.Failf(shimSig("size-stale-after-child-modification", c), "csproto.Size after a child message was modified in place = %d, %s marshals the same contents to %d bytes", n, rt.name, len(want))
+			}
+			return nil
+		})
+	}
 	// the EMPTY message: csproto.Marshal / the codec refuse it exactly when the owning runtime does (required fields)
 	step("MarshalEmpty", func() *ev.Failure {
 		e1, _, _ := c.newOf(nil)
@@ -895,4 +933,67 @@ func replayShim(rp *ev.Replay) *ev.Failure {
 		return oracleUnsupported(&c)
 	}
 	return ev.Failf("C11/replay", "unknown replay kind %s", rp.Test)
+}
+
+// growSomeChild finds a populated child message (singular field, list element or map value, depth <= 3) and
+// changes one of its scalar fields IN PLACE so that its encoded size grows.  Reports whether it did.
+func growSomeChild(m protoreflect.Message, depth int) bool {
+	done := false
+	m.Range(func(fd protoreflect.FieldDescriptor, v protoreflect.Value) bool {
+		var kids []protoreflect.Message
+		switch {
+		case fd.IsMap():
+			if fd.MapValue().Message() != nil {
+				v.Map().Range(func(_ protoreflect.MapKey, mv protoreflect.Value) bool { kids = append(kids, mv.Message()); return true })
+			}
+		case fd.IsList():
+			if fd.Message() != nil {
+				for i := 0; i < v.List().Len(); i++ {
+					kids = append(kids, v.List().Get(i).Message())
+				}
+			}
+		case fd.Message() != nil:
+			kids = append(kids, v.Message())
+		}
+		for _, k := range kids {
+			if !k.IsValid() {
+				continue
+			}
+			if growScalar(k) || (depth < 3 && growSomeChild(k, depth+1)) {
+				done = true
+				return false
+			}
+		}
+		return true
+	})
+	return done
+}
+
+func growScalar(m protoreflect.Message) bool {
+	fs := m.Descriptor().Fields()
+	for i := 0; i < fs.Len(); i++ {
+		fd := fs.Get(i)
+		if fd.IsList() || fd.IsMap() || fd.ContainingOneof() != nil && !fd.HasOptionalKeyword() {
+			continue
+		}
+		switch fd.Kind() {
+		case protoreflect.StringKind:
+			m.Set(fd, protoreflect.ValueOfString(m.Get(fd).String()+"-grown-by-the-harness-0123456789"))
+			return true
+		case protoreflect.BytesKind:
+			m.Set(fd, protoreflect.ValueOfBytes(append(append([]byte{}, m.Get(fd).Bytes()...), make([]byte, 40)...)))
+			return true
+		case protoreflect.Int64Kind, protoreflect.Sint64Kind, protoreflect.Sfixed64Kind:
+			if m.Get(fd).Int() != -1234567890123 {
+				m.Set(fd, protoreflect.ValueOfInt64(-1234567890123))
+				return true
+			}
+		case protoreflect.Uint64Kind, protoreflect.Fixed64Kind:
+			if m.Get(fd).Uint() != 1<<62 {
+				m.Set(fd, protoreflect.ValueOfUint64(1<<62))
+				return true
+			}
+		}
+	}
+	return false
 }
